@@ -38,6 +38,7 @@ def shard(args):
     path = os.path.join(wd, 'b%d.hxb' % s)
     hxb.write_batch(path, cases)
     res = fw.run_hx([bdir + '/hx', 'run', path, '--crash-dir', wd])
+    fw.discard(path)
     out = dict(viol=[], crashes=res['crashes'], hung=res['hung'], n=0, nontrivial=set(), feats={}, fields=0, stats=None, samples=[], monitor=[])
     for l in res['lines']:
         if l.startswith('S '):
@@ -77,7 +78,7 @@ def run(tier):
     wd = fw.workdir('C02')
     fw.replay_dir('C02')
     n = SIZES[tier]
-    nsh = fw.NPROC
+    nsh = fw.nshards(n, SIZES['quick'])
     outs = fw.pool_map(shard, [(bdir, wd, fw.seed(), s, nsh, n) for s in range(nsh)])
     evals, fields, feats, distinct, samples, stats = 0, 0, {}, set(), [], []
     for o in outs:
